@@ -91,9 +91,10 @@ def sha(*arrays) -> str:
 
 
 def dense_rank(values) -> list[int]:
-    vs = sorted({float(v) for v in values})
+    """(NaN - a surrogate may predict it from garbage - ranks after every number)"""
+    vs = sorted({float(v) for v in values if float(v) == float(v)})
     pos = {v: i for i, v in enumerate(vs)}
-    return [pos[float(v)] for v in values]
+    return [pos[float(v)] if float(v) == float(v) else len(vs) for v in values]
 
 
 def history(space, n: int, rng: random.Random, extreme: bool = False, pair: bool = False, typed: str | None = None):
@@ -217,10 +218,46 @@ def _kw(kw: dict) -> dict:
     return {k: (v if isinstance(v, (int, float, str, bool)) else str(v)) for k, v in kw.items()}
 
 
+def clip_events(n: int, rng: random.Random) -> list[list[dict]]:
+    """XGBoostSampler._clip_losses on loss vectors mixing ordinary values with values at / beyond the float32 limits"""
+    from black_it.samplers.xgboost import XGBoostSampler
+
+    f32 = float(np.finfo(np.float32).max)
+    pool = [0.0, 1.5, -2.25, 1e30, -1e30, 3.0e38, -3.0e38, f32, -f32, 3.5e38, -3.5e38, 1e39, -1e39, 1e308, float("inf"), float("-inf")]
+    out = []
+    for k in range(n):
+        m = rng.randint(1, 7)
+        y = np.array([rng.choice(pool) for _ in range(m)], dtype=float)
+        if k % 4 == 0:
+            y = np.array([rng.choice(pool[:7]) for _ in range(m - 1)] + [rng.choice(pool[7:])], dtype=float)      # a single overflowing entry
+        keep = y.copy()
+        try:
+            with quiet():
+                res = np.asarray(XGBoostSampler._clip_losses(y), dtype=float)  # noqa: SLF001
+        except Exception as e:  # noqa: BLE001
+            out.append([{"e": "clip", "cls": "XGBoostSampler", "kinds": ["in"], "outs": ["other"], "inputsame": True, "what": repr(e)[:120], "y": keep.tolist()}])
+            continue
+        kinds = ["over" if v >= f32 else "under" if v <= -f32 else "in" for v in keep]
+        outs = []
+        for v, r in zip(keep, res if res.shape == keep.shape else [float("nan")] * len(keep)):
+            if r == v and abs(v) < f32:
+                outs.append("same")
+            elif np.isfinite(r) and 0.99 * f32 <= r <= f32 and float(np.float32(r)) != float("inf"):
+                outs.append("top")
+            elif np.isfinite(r) and -f32 <= r <= -0.99 * f32 and float(np.float32(r)) != float("-inf"):
+                outs.append("bottom")
+            else:
+                outs.append("other")
+        out.append([{"e": "clip", "cls": "XGBoostSampler", "kinds": kinds, "outs": outs,
+                     "inputsame": bool(np.array_equal(keep, y, equal_nan=True)), "y": [repr(float(v)) for v in keep]}])
+    return out
+
+
 def strip(e: dict) -> dict:
     keep = {"sample": ("e", "cls", "bs", "g", "rem", "rows", "cols", "idx", "histsame", "inbounds"),
             "bestbatch": ("e", "bs", "range", "g", "rem", "hist", "rank", "out"),
-            "select": ("e", "bs", "preds", "sel", "fitsame", "predictsame")}.get(e["e"])
+            "select": ("e", "bs", "preds", "sel", "fitsame", "predictsame"),
+            "clip": ("e", "kinds", "outs", "inputsame")}.get(e["e"])
     return {k: e[k] for k in keep} if keep else {"e": e["e"]}
 
 
